@@ -200,6 +200,29 @@ impl ChainSt {
             let _ = m; // the method table is C15's
         }
         if self.cfg.check_credentials && self.hop > 0 {
+            // "never present" must also hold when the caller attaches its own cookie / credentials for the
+            // redirect target (what a cookie jar does): the inherited values must stay out
+            let mut g = f.clone();
+            let _ = g.header("cookie", "k=NEW");
+            let _ = g.header("authorization", "NEW");
+            let _ = g.header("x-b", "1");
+            let w = write_head(&g, false);
+            if w.err.is_none() {
+                if let Ok(h2) = head::parse(&w.bytes) {
+                    for (name, val) in &h2.fields {
+                        let v = String::from_utf8_lossy(val);
+                        if name == "cookie" && v.contains("ORIG") {
+                            return Err((self.k("cookie-leaked"), format!("hop {}: after the caller added its own cookie to the redirected flow, the previous request's Cookie header is sent as well: {}", self.hop, v)));
+                        }
+                        if name == "content-length" && self.cfg.req.orig.iter().any(|(k, ov)| k == "content-length" && ov == val) {
+                            return Err((self.k("content-length-leaked"), format!("hop {}: after caller additions the previous request's Content-Length is present", self.hop)));
+                        }
+                        if name == "authorization" && v.contains("S3CRET") && !self.auth_may {
+                            return Err((self.k("authorization-leaked"), format!("hop {}: after the caller added its own authorization to the redirected flow, the original Authorization is sent to {} as well", self.hop, uri3986::to_string(&self.cur))));
+                        }
+                    }
+                }
+            }
             // values inherited from the original request are recognisable by their text
             for (name, val) in &h.fields {
                 let v = String::from_utf8_lossy(val);
